@@ -608,18 +608,52 @@ func (p *Program) Subst(x ast.Expr, env map[types.Object]ast.Expr) ast.Expr {
 // Returns nil if the callee is not of that shape.
 func (p *Program) ExpandCall(call *ast.CallExpr) ast.Expr { return p.expandCall(call, 0) }
 
+// ExpandResults is ExpandCall for a helper with several results: the expression each result stands for.
+func (p *Program) ExpandResults(call *ast.CallExpr) []ast.Expr {
+	fn := Callee(p.Info, call)
+	if fn == nil {
+		return nil
+	}
+	n := fn.Type().(*types.Signature).Results().Len()
+	var out []ast.Expr
+	for i := 0; i < n; i++ {
+		x := p.expandCallResult(call, 0, i, n)
+		if x == nil {
+			return nil
+		}
+		out = append(out, x)
+	}
+	return out
+}
+
 func (p *Program) expandCall(call *ast.CallExpr, depth int) ast.Expr {
+	return p.expandCallResult(call, depth, 0, 1)
+}
+
+func (p *Program) expandCallResult(call *ast.CallExpr, depth, idx, nres int) ast.Expr {
 	if depth > 4 {
 		return nil
 	}
 	info := p.Info
 	fn := Callee(info, call)
 	decl, _ := p.DeclOf(fn)
-	if decl == nil || decl.Body == nil {
+	var sig *types.Signature
+	if fn != nil {
+		sig = fn.Type().(*types.Signature)
+	}
+	if decl == nil {
+		// a local closure that only builds and returns a value: onSide := func(alias string) *T { return &T{...} }
+		if id, ok := ast.Unparen(call.Fun).(*ast.Ident); ok {
+			if lit, isLit := ast.Unparen(p.DefExpr(id)).(*ast.FuncLit); isLit && p.callOnlyClosure(lit) != nil {
+				decl = &ast.FuncDecl{Name: id, Type: lit.Type, Body: lit.Body}
+				sig, _ = info.TypeOf(lit).(*types.Signature)
+			}
+		}
+	}
+	if decl == nil || decl.Body == nil || sig == nil {
 		return nil
 	}
-	sig := fn.Type().(*types.Signature)
-	if sig.Variadic() || sig.Results().Len() != 1 || sig.Params().Len() != len(call.Args) {
+	if sig.Variadic() || sig.Results().Len() != nres || sig.Params().Len() != len(call.Args) {
 		return nil
 	}
 	// body: single-assignment temporaries, then one return
@@ -631,12 +665,12 @@ func (p *Program) expandCall(call *ast.CallExpr, depth int) ast.Expr {
 				return nil
 			}
 			for _, l := range v.Lhs {
-				if p.DefOf(l) == nil {
+				if p.DefOf(l) == nil && p.litDef(l) == nil {
 					return nil
 				}
 			}
 		case *ast.ReturnStmt:
-			if i != len(decl.Body.List)-1 || len(v.Results) != 1 {
+			if i != len(decl.Body.List)-1 || len(v.Results) != nres {
 				return nil
 			}
 			ret = v
@@ -670,7 +704,7 @@ func (p *Program) expandCall(call *ast.CallExpr, depth int) ast.Expr {
 			}
 		}
 	}
-	body := p.ResolveDeepAll(ret.Results[0])
+	body := p.ResolveDeepAll(ret.Results[idx])
 	return p.Subst(body, env)
 }
 
@@ -682,6 +716,8 @@ func (p *Program) ResolveDeepAll(x ast.Expr) ast.Expr {
 			if o := objOf(p.Info, id); o != nil {
 				if _, done := env[o]; !done {
 					if d := p.DefOf(id); d != nil {
+						env[o] = p.ResolveDeepAll(d)
+					} else if d := p.litDef(id); d != nil {
 						env[o] = p.ResolveDeepAll(d)
 					}
 				}
@@ -918,4 +954,140 @@ func (p *Program) globalInitExpr(g *types.Var) ast.Expr {
 		}
 	}
 	return p.globalInits[g]
+}
+
+// callOnlyClosure: lit is the one definition of a local variable (f := func(...) {...}) that is used only by
+// calling it; returns that variable.
+func (p *Program) callOnlyClosure(lit *ast.FuncLit) types.Object {
+	if p.callOnly == nil {
+		p.callOnly = map[*ast.FuncLit]types.Object{}
+	}
+	if v, done := p.callOnly[lit]; done {
+		return v
+	}
+	p.callOnly[lit] = nil
+	var v types.Object
+	switch par := p.Parent(lit).(type) {
+	case *ast.AssignStmt:
+		if par.Tok == token.DEFINE && len(par.Lhs) == 1 && len(par.Rhs) == 1 {
+			v = objOf(p.Info, par.Lhs[0])
+		}
+	case *ast.ValueSpec:
+		if len(par.Names) == 1 && len(par.Values) == 1 {
+			v = p.Info.Defs[par.Names[0]]
+		}
+	}
+	lv, ok := v.(*types.Var)
+	if !ok || lv.Pkg() == nil || lv.Parent() == lv.Pkg().Scope() || !p.neverReassigned(v) {
+		return nil
+	}
+	fd := p.FuncAt(lit.Pos())
+	if fd == nil {
+		return nil
+	}
+	okUse := true
+	ast.Inspect(fd.Body, func(n ast.Node) bool {
+		id, isID := n.(*ast.Ident)
+		if !isID || objOf(p.Info, id) != v || p.Info.Defs[id] != nil {
+			return true
+		}
+		if call, isCall := p.Parent(id).(*ast.CallExpr); !isCall || call.Fun != ast.Expr(id) {
+			okUse = false
+		}
+		return true
+	})
+	if !okUse {
+		return nil
+	}
+	p.callOnly[lit] = v
+	return v
+}
+
+// litDef: the variable is assigned exactly once, from a composite literal (or its address): a node under
+// construction that a constructor helper names before returning it.
+func (p *Program) litDef(x ast.Expr) ast.Expr {
+	id, ok := ast.Unparen(x).(*ast.Ident)
+	if !ok {
+		return nil
+	}
+	o := objOf(p.Info, id)
+	if o == nil {
+		return nil
+	}
+	d := p.defTable()[o]
+	if d == nil || d.count != 1 || d.rhs == nil || !p.neverReassigned(o) {
+		return nil
+	}
+	r := ast.Unparen(d.rhs)
+	if u, isU := r.(*ast.UnaryExpr); isU && u.Op == token.AND {
+		r = ast.Unparen(u.X)
+	}
+	if _, isLit := r.(*ast.CompositeLit); !isLit {
+		return nil
+	}
+	return d.rhs
+}
+
+// freshResult: fn is a module function with a single result, and every return gives a value that was made in the
+// function (make, new, &T{...}, a map/slice literal, or a local that is only ever assigned such values): the
+// result is never nil and nothing else refers to it.
+func (p *Program) freshResult(fn *types.Func) bool {
+	if p.fresh == nil {
+		p.fresh = map[*types.Func]bool{}
+	}
+	if v, done := p.fresh[fn]; done {
+		return v
+	}
+	p.fresh[fn] = false
+	decl, _ := p.DeclOf(fn)
+	if decl == nil || decl.Body == nil || fn.Type().(*types.Signature).Results().Len() != 1 {
+		return false
+	}
+	switch fn.Type().(*types.Signature).Results().At(0).Type().Underlying().(type) {
+	case *types.Map, *types.Slice, *types.Pointer:
+	default:
+		return false
+	}
+	info := p.Info
+	isFresh := func(x ast.Expr) bool {
+		x = ast.Unparen(x)
+		switch v := x.(type) {
+		case *ast.CallExpr:
+			return IsBuiltinCall(info, v, "make") || IsBuiltinCall(info, v, "new")
+		case *ast.UnaryExpr:
+			if v.Op == token.AND {
+				_, isLit := ast.Unparen(v.X).(*ast.CompositeLit)
+				return isLit
+			}
+		case *ast.CompositeLit:
+			switch info.TypeOf(v).Underlying().(type) {
+			case *types.Map, *types.Slice:
+				return true
+			}
+		}
+		return false
+	}
+	ok, n := true, 0
+	ast.Inspect(decl.Body, func(m ast.Node) bool {
+		switch r := m.(type) {
+		case *ast.FuncLit:
+			return false
+		case *ast.ReturnStmt:
+			n++
+			if len(r.Results) != 1 {
+				ok = false
+				return true
+			}
+			if isFresh(r.Results[0]) {
+				return true
+			}
+			if _, isID := ast.Unparen(r.Results[0]).(*ast.Ident); isID && !isNilIdent(info, r.Results[0]) && p.allDefsAre(r.Results[0], isFresh) {
+				return true
+			}
+			ok = false
+		}
+		return true
+	})
+	p.fresh[fn] = ok && n > 0
+	return p.fresh[fn]
 }
